@@ -114,6 +114,10 @@ func c20GenEntry(w *simrt.Stream, i int) c20Entry {
 		e.Good, e.BadKind = false, "unknown-method"
 		// (a few names only, so that the same unknown method often comes twice in a row on one instance)
 		e.Call = "target.TargetService." + []string{"Nope", "Helo", fmt.Sprintf("Nope%d", i)}[w.Draw(3)]
+		if w.Draw(4) == 0 {
+			// grpcurl's spelling of an existing method: the documented form of `call` is the dotted fully qualified name
+			e.Call = []string{"target.TargetService/Hello", "/target.TargetService/Hello", "target.TargetService/Stats"}[w.Draw(3)]
+		}
 	case 1:
 		e.Good, e.BadKind = false, "ill-typed-payload"
 		switch e.Method {
@@ -175,6 +179,21 @@ func runC20(r *R) {
 		gun["tls"] = true
 		r.Note("transport:tls")
 	}
+	// diagnostics and dial options (one run in four): the answer log with its filters, debug-level logging, an authority
+	// and a dial timeout - none of them may change which calls are made, with what content, or how they are reported
+	debugLog := false
+	if w.Draw(4) == 0 {
+		if fl := []string{"", "all", "warning", "error"}[w.Draw(4)]; fl != "" {
+			gun["answlog"] = map[string]interface{}{"enabled": true, "path": "/dev/null", "filter": fl}
+		}
+		debugLog = w.Draw(2) == 0
+		do := map[string]interface{}{"timeout": "3s"}
+		if !useTLS && w.Draw(2) == 0 {
+			do["authority"] = "svc.example"
+		}
+		gun["dial_options"] = do
+		r.Note("gun-diagnostics-on")
+	}
 	var descr []string
 	for _, e := range ents {
 		descr = append(descr, fmt.Sprintf("%s %s %s md=%v good=%v", e.Tag, e.Call, e.Fields, e.MD, e.Good))
@@ -187,6 +206,7 @@ func runC20(r *R) {
 	res := runHTTPPool(r, httpPoolSpec{
 		Ammo:      map[string]interface{}{"type": "grpc/json", "file": "/ammo/grpc.json", "passes": passes},
 		Gun:       gun,
+		DebugLog:  debugLog,
 		Instances: inst, Tokens: n*passes + 2,
 		Files: map[string][]byte{"/ammo/grpc.json": []byte(file.String())},
 	}, func(nw *simnet.Net) { nw.Latency = lat }, func(nw *simnet.Net) { tgt = startGRPCTargetTLS(nw, target, useTLS, nil) })
